@@ -450,6 +450,11 @@ func c08Run(c *Ctx) {
 				if k >= 2 && benign(parts[:k-2]) && (parts[k-2] == "{{" || parts[k-2] == "@if(") && (parts[k-1] == "^" || parts[k-1] == "\xff") {
 					must, why = true, "illegal-character-in-code"
 				}
+				// ... also when the construct is closed behind the character (bytes above 0x7f are no letters of a name)
+				illegal := func(q string) bool { return q == "^" || q == "\xff" || q == "\xa0" || q == "\x00" }
+				if k >= 3 && benign(parts[:k-3]) && ((parts[k-3] == "{{" && parts[k-1] == "}}") || (parts[k-3] == "@if(" && parts[k-1] == ")")) && illegal(parts[k-2]) {
+					must, why = true, "illegal-character-in-closed-code"
+				}
 				if k >= 1 && benign(parts[:k-1]) && (parts[k-1] == "{{" || parts[k-1] == "{{--") {
 					must, why = true, "unterminated:"+parts[k-1]
 				}
